@@ -77,6 +77,16 @@ Base(name) ==
            <<S1, PPowerLevels(UC, MkPL((UC.name :> 100) @@ (UA.name :> 100))), "$I", 1, {"$G"}>>,
            <<S1, PTopic(UA, 1), "$J", 5, {"$I"}>>,
            <<S1, PTopic(UA, 2), "$K", 3, {"$G"}>>>>
+    [] name = "inviterace" ->    \* B joins and sets the topic on one branch while the creator makes the room invite-only and A invites
+                                 \* B on the other.  In the merge the join is rejected, the topic still cites it, and the invite is
+                                 \* checked last: its target's membership is in neither its own auth events nor the partial state
+         <<<<S1, PCreate, "$A", 0>>, <<S1, PMember(UC, UC, "join"), "$B", 0>>,
+           <<S1, PPowerLevels(UC, MkPL((UC.name :> 100) @@ (UA.name :> 50) @@ (UB.name :> 50))), "$C", 0>>,
+           <<S1, PJoinRules(UC, "public"), "$D", 0>>, <<S1, PMember(UA, UA, "join"), "$E", 0>>,
+           <<S2, PMember(UB, UB, "join"), "$F", 1, {"$E"}>>,
+           <<S2, PTopic(UB, 1), "$G", 2, {"$F"}>>,
+           <<S1, PJoinRules(UC, "invite"), "$H", 1, {"$E"}>>,
+           <<S1, PMember(UA, UB, "invite"), "$I", 3, {"$H"}>>>>
     [] name = "restricted" ->    \* restricted room (v8+): A joined with 50, B outside
          <<<<S1, PCreate, "$A", 0>>, <<S1, PMember(UC, UC, "join"), "$B", 0>>,
            <<S1, PPowerLevels(UC, MkPL((UC.name :> 100) @@ (UA.name :> 50))), "$C", 0>>,
